@@ -121,34 +121,31 @@ Print Assumptions C15_assert_stack_never_fires.
    "Non-nil": the model's results are total values; the one nil the Go code could hand out — a
    Block whose Body is nil without any error — is the panic P_NilBody of (c), and
    ExpandFinal without arguments is P_ExpandNoArgs of (c).
-   "A placeholder (unknown-value literal of errPlaceholderExpr / 'Invalid expression', an
-   ExprSyntaxError node, an unknown number or index key) only comes with an error diagnostic":
-   the FULL statement is the Definition below (PlaceholderProofs.unusable_implies_error_stmt):
-     forall ts e, parse_expression_entry ts = EOk e [] -> clean e = true, the same for
-     parse_template_entry, and for parse_config with every attribute expression clean.
-   It is NOT proved in full.  Proved (C15_unusable_implies_error_partial): the invariant
-   "recovery off at entry and no diagnostic returned => recovery still off and the result is
-   clean" for recover, recoverAfterBodyItem, parseQuotedStringLiteral, parseBinaryOps (every
-   table), parseTernaryConditional and parseExpressionWithTraversals, each relative to the same
-   invariant of the functions it calls.  MISSING: parseExpressionTraversals (an index key
-   written as a one-part template needs the extra invariant "a one-part TemplateExpr holds a
-   string"), parseExpressionTerm, function calls, tuple/object/for constructors, the template
-   and body parsers, parseTraversal, and the induction on fuel that ties the knot.  At run time
-   the harness kind `placeholder-without-error` (cparse) checks the full statement on the Go
-   code; it has never fired. *)
-Definition C15_unusable_implies_error_statement : Prop := unusable_implies_error_stmt.
+   "Unusable implies error": `clean e` says that the AST holds NO placeholder anywhere — no
+   unknown-value literal (errPlaceholderExpr, the "Invalid expression" placeholder, an
+   unparsable number literal), no ExprSyntaxError node, no unknown index key; `clean_pbody`
+   says it of every attribute expression of a body at every depth, `clean_trav` of every index
+   key of a traversal.  For ALL token lists: a result returned without any diagnostic (the
+   lexer's checkInvalidTokens diagnostics included) is clean; contrapositive: whenever a
+   placeholder is returned, an error diagnostic is returned with it.  Proved in full
+   (Parse/PlaceholderProofs.v), via the invariant "recovery off at entry and no diagnostic
+   returned => recovery still off and the result clean" of every parser function.
+   Not covered: that diagnostics carry a severity / summary / in-bounds ranges (ranges are not
+   modelled; the byte-level harness cmd/c15 checks them on the Go code). *)
+Theorem C15_unusable_implies_error :
+  (forall ts e, parse_expression_entry ts = EOk e [] -> clean e = true) /\
+  (forall ts e, parse_template_entry ts = EOk e [] -> clean e = true) /\
+  (forall ts b, parse_config ts = EOk b [] -> forallb clean_item b = true) /\
+  (forall ts t, parse_traversal_abs ts = EOk t [] -> forallb clean_tstep t = true) /\
+  (forall ts t, parse_traversal_partial ts = EOk t [] -> forallb clean_tstep t = true).
+Proof. exact unusable_implies_error. Qed.
+Print Assumptions C15_unusable_implies_error.
 
-Theorem C15_unusable_implies_error_partial :
-  (forall fuel e, vspec Qon (recover fuel e)) /\
-  (forall fuel, vspec Qon (recover_after_body_item fuel)) /\
-  (forall fuel, vspec Qds (parse_quoted_string_literal fuel)) /\
-  (forall pwt f ops, vspec QE pwt -> vspec QE (parse_binary_ops f pwt ops)) /\
-  (forall p_expr p_bin, vspec QE p_expr -> vspec QE p_bin ->
-     vspec QE (parse_ternary_conditional_body p_expr p_bin)) /\
-  (forall p_term p_trav, vspec QE p_term -> (forall e, vspec (QEacc [] (clean e)) (p_trav e)) ->
-     vspec QE (parse_expression_with_traversals_body p_term p_trav)).
-Proof. exact unusable_implies_error_partial. Qed.
-Print Assumptions C15_unusable_implies_error_partial.
+(* what counts as a placeholder *)
+Theorem C15_placeholders_are_not_clean :
+  clean e_syntax_error = false /\ clean (ELit dyn_val) = false /\
+  clean (EScopeTrav [97] [SIndex dyn_val]) = false /\ clean (ELit (VUnk TNum rf_none)) = false.
+Proof. exact placeholders_are_not_clean. Qed.
 
 (* ---- the other front ends (cited; proofs with C14 / C13 / C09 / C10) ------------------------------------- *)
 
@@ -214,6 +211,14 @@ Qed.
 Example C15_example :
   exists body ds, parse_config ex15 = EOk body ds /\ ds <> [] /\ length body = 1%nat.
 Proof. eexists _, _. split; [vm_compute; reflexivity|]. split; [discriminate | reflexivity]. Qed.
+
+(* (f) on an instance: `a = (` EOF — the attribute's expression is the unknown placeholder, and a
+   diagnostic ("Missing expression") comes with it *)
+Example C15_example_placeholder :
+  parse_config [mkTok TokenIdent [97] None 0 0; mkTok TokenEqual [61] None 0 0; mkTok TokenOParen [40] None 0 0;
+                mkTok TokenEOF [] None 0 0]
+  = EOk [PAttr [97] (ELit dyn_val)] [D_MissingExpr].
+Proof. vm_compute. reflexivity. Qed.
 
 (* a stream that does not end with EOF: the model (like Go) does not terminate — it reports
    OutOfFuel, it never invents a result *)
